@@ -3,8 +3,9 @@
      semantic/resolver/expr.rs       fold_expr, FuncCall: fold the callee, apply_args_to_closure, fold_function
      semantic/resolver/functions.rs  fold_function_inner (too many / not enough / evaluate), apply_args_to_closure
                                      (named parameters are pushed in front of the remaining positional ones),
-                                     materialize_function (a body that folds to a function is wrapped: the inner
-                                     closure keeps only the parameters it already has arguments for)
+                                     materialize_function (a body that folds to a PRQL-bodied function is wrapped: the
+                                     inner closure keeps only the parameters it already has arguments for; since
+                                     commit 9639161 a built-in is returned as it is)
      semantic/resolver/transforms.rs resolve_special_func: `let [..] = unpack::<N>(func.args)` =
                                      func_args.try_into().expect("bad special function cast")
    Values other than functions are one constructor (`Val`); bodies do not refer to their parameters (the count of
@@ -64,9 +65,16 @@ Section Fold.
                 (* materialize_function *)
                 match rec b with
                 | Ok (Fn n' np' a' b') =>
-                    (* let (got, missing) = inner.params.split_at(inner.args.len()); inner.params = got;
-                       Func { args: [], params: missing, body: Func(inner) } *)
-                    Ok (Fn 0 (np' - length a') [] (Body (Fn n' (length a') a' b')))
+                    match b' with
+                    | Internal _ | StdOp =>
+                        (* since commit 9639161: `if matches!(inner.body.kind, ExprKind::Internal(_)) { return Func(inner) }`
+                           -- a partially applied built-in keeps its parameters (both kinds of `internal` body) *)
+                        Ok (Fn n' np' a' b')
+                    | Body _ =>
+                        (* let (got, missing) = inner.params.split_at(inner.args.len()); inner.params = got;
+                           Func { args: [], params: missing, body: Func(inner) } *)
+                        Ok (Fn 0 (np' - length a') [] (Body (Fn n' (length a') a' b')))
+                    end
                 | r => r
                 end
             end
@@ -91,19 +99,19 @@ Section Fold.
         end
     end.
 
-  (* terms without PRQL-bodied functions (no lambda, no `let f = x -> ..`): every function is a std function whose
-     parameter counts are those of its arm *)
-  Fixpoint lambda_free (e : expr) : bool :=
+  (* the terms of a program: every built-in function has the parameter counts of its declaration (named + positional
+     = the N of its arm); lambdas (`Body`) are unrestricted *)
+  Fixpoint well_declared (e : expr) : bool :=
     match e with
     | Val => true
     | Fn named np args body =>
-        forallb lambda_free args &&
+        forallb well_declared args &&
         match body with
         | Internal id => match arity id with Some n => Nat.eqb (named + np) n | None => true end
         | StdOp => true
-        | Body _ => false
+        | Body b => well_declared b
         end
-    | App c given => lambda_free c && forallb lambda_free given
+    | App c given => well_declared c && forallb well_declared given
     end.
 End Fold.
 
